@@ -465,33 +465,95 @@ Proof.
   constructor; rewrite ?E1, ?E2, ?E3, ?E4, ?E5, ?E6, ?E7; assumption.
 Qed.
 
+(* ---------- the cancellation check at the start of acquire(): phases Idle / CkYield touch nothing ---------- *)
+Definition neutral (p : phase) : Prop := p = Idle \/ p = CkYield.
+
+Lemma neutral_S s t p mc :
+  Struct s -> neutral (phase_of s t) -> neutral p ->
+  Struct (mk (fast s) (maxv s) (value s) (waiters s) (futs s) (nfut s) (upd (phase_of s) t p) mc
+             (init0 s) (held s) (infl s) (extra s) (dropped s) (enq s)).
+Proof.
+  intros St Hn Hp.
+  assert (Hold : forall x, x <> t -> upd (phase_of s) t p x = phase_of s x) by (intros; now apply upd_other).
+  assert (Hnw : forall f, phase_of s t <> Waiting f) by (intros f E; destruct Hn as [H|H]; congruence).
+  assert (Hnf : phase_of s t <> FastYield) by (intros E; destruct Hn as [H|H]; congruence).
+  assert (Hpw : forall f, p <> Waiting f) by (intros f E; destruct Hp as [H|H]; congruence).
+  assert (Hpf : p <> FastYield) by (intros E; destruct Hp as [H|H]; congruence).
+  constructor; cbn.
+  - apply (S_pos s St).
+  - intros x. rewrite (S_infl s St x). unfold resv_phase; cbn. destruct (Nat.eq_dec x t) as [->|Hne].
+    + rewrite upd_same. split.
+      * intros [H|(f & H & _)]; [contradiction|exfalso; eapply Hnw; eauto].
+      * intros [H|(f & H & _)]; [contradiction|exfalso; eapply Hpw; eauto].
+    + rewrite Hold by assumption. tauto.
+  - apply (S_inflnd s St).
+  - intros x f Hx. destruct (S_w s St x f Hx) as [H1 H2].
+    assert (x <> t) by (intros ->; eapply Hnw; eauto). rewrite Hold by assumption. auto.
+  - intros x f H1 H2. destruct (Nat.eq_dec x t) as [->|Hne];
+      [rewrite upd_same in H1; exfalso; eapply Hpw; eauto|].
+    rewrite Hold in H1 by assumption. apply (S_pend s St x f H1 H2).
+  - intros x f H1. destruct (Nat.eq_dec x t) as [->|Hne];
+      [rewrite upd_same in H1; exfalso; eapply Hpw; eauto|].
+    rewrite Hold in H1 by assumption. apply (S_fresh s St x f H1).
+  - intros x1 x2 f H1 H2.
+    destruct (Nat.eq_dec x1 t) as [->|Hne1]; [rewrite upd_same in H1; exfalso; eapply Hpw; eauto|].
+    destruct (Nat.eq_dec x2 t) as [->|Hne2]; [rewrite upd_same in H2; exfalso; eapply Hpw; eauto|].
+    rewrite Hold in H1, H2 by assumption. eapply (S_inj s St); eauto.
+  - apply (S_nd s St).
+  - apply (S_fifo s St).
+Qed.
+
+Lemma neutral_not_infl s t : Struct s -> neutral (phase_of s t) -> ~ In t (infl s).
+Proof.
+  intros St Hn H. apply (S_infl s St) in H. destruct Hn as [E|E]; destruct H as [H|(f & H & _)]; congruence.
+Qed.
+
+Lemma set_phase_neutral_inv s t p : Inv s -> neutral (phase_of s t) -> neutral p -> Inv (set_phase s t p).
+Proof.
+  intros I Hn Hp. constructor; [unfold set_phase; now apply neutral_S; [apply (I_struct s I)|..]|].
+  eapply arith_same; [exact (I_arith s I)|..]; reflexivity.
+Qed.
+
+Lemma leave_neutral_inv s t : Inv s -> neutral (phase_of s t) -> Inv (leave s t).
+Proof.
+  intros I Hn. pose proof (I_struct s I) as St. unfold leave.
+  rewrite (remove_one_notin t (infl s) (neutral_not_infl s t St Hn)). constructor.
+  - apply neutral_S; [exact St|exact Hn|now left].
+  - eapply arith_same; [exact (I_arith s I)|..]; reflexivity.
+Qed.
+
+Lemma acq_body_inv s t : Inv s -> phase_of s t = Idle -> Inv (fst (acq_body s t)).
+Proof.
+  intros I Ei. pose proof (I_struct s I) as St. pose proof (I_arith s I) as A. unfold acq_body.
+  destruct (value s) as [|v] eqn:Ev.
+  + (* value 0: enqueue *)
+    assert (HI : Inv (mk (fast s) (maxv s) (value s) (waiters s ++ [(t, nfut s)])
+                         (upd (futs s) (nfut s) FPending) (S (nfut s))
+                         (upd (phase_of s) t (Waiting (nfut s))) (mustc s) (init0 s) (held s) (infl s)
+                         (extra s) (dropped s) (enq s ++ [(t, nfut s)]))).
+    { constructor; [apply enqueue_S; auto|]. eapply arith_same; [exact A|..]; reflexivity. }
+    rewrite Ev in HI. destruct (waiters s); exact HI.
+  + destruct (waiters s) as [|w0 wr] eqn:Ew.
+    * destruct (fast s); cbn [fst].
+      -- constructor.
+         ++ apply take_S; auto.
+         ++ destruct A as [Hc Hle Hd Hn]. constructor; cbn in *; [lia| |exact Hd|exact Hn].
+            intros m E. destruct (Hle m E). lia.
+      -- constructor.
+         ++ apply take_yield_S; auto.
+         ++ destruct A as [Hc Hle Hd Hn]. constructor; cbn in *; [lia| |exact Hd|exact Hn].
+            intros m E. destruct (Hle m E). lia.
+    * exfalso. destruct (S_pos s St) as [H|H]; [lia|congruence].
+Qed.
+
 (* ---------- one step, every reachable state ---------- *)
 Lemma step_inv s o : Inv s -> Inv (fst (step s o)).
 Proof.
   intros I. pose proof (I_struct s I) as St. pose proof (I_arith s I) as A.
-  destruct o as [t|t|t|t|t]; cbn [step].
+  destruct o as [t|t|t|t|t|t|t]; cbn [step].
   - (* AcqBegin *)
     destruct (is_idle (phase_of s t)) eqn:Ei; cbn [negb fst]; [|exact I].
-    apply is_idle_true in Ei.
-    destruct (value s) as [|v] eqn:Ev.
-    + (* value 0: enqueue *)
-      assert (HI : Inv (mk (fast s) (maxv s) (value s) (waiters s ++ [(t, nfut s)])
-                           (upd (futs s) (nfut s) FPending) (S (nfut s))
-                           (upd (phase_of s) t (Waiting (nfut s))) (mustc s) (init0 s) (held s) (infl s)
-                           (extra s) (dropped s) (enq s ++ [(t, nfut s)]))).
-      { constructor; [apply enqueue_S; auto|]. eapply arith_same; [exact A|..]; reflexivity. }
-      rewrite Ev in HI. destruct (waiters s); exact HI.
-    + destruct (waiters s) as [|w0 wr] eqn:Ew.
-      * destruct (fast s); cbn [fst].
-        -- constructor.
-           ++ apply take_S; auto.
-           ++ destruct A as [Hc Hle Hd Hn]. constructor; cbn in *; [lia| |exact Hd|exact Hn].
-              intros m E. destruct (Hle m E). lia.
-        -- constructor.
-           ++ apply take_yield_S; auto.
-           ++ destruct A as [Hc Hle Hd Hn]. constructor; cbn in *; [lia| |exact Hd|exact Hn].
-              intros m E. destruct (Hle m E). lia.
-      * exfalso. destruct (S_pos s St) as [H|H]; [lia|congruence].
+    apply is_idle_true in Ei. now apply acq_body_inv.
   - (* AcqNowait *)
     destruct (is_idle (phase_of s t)) eqn:Ei; cbn [negb fst]; [|exact I].
     destruct (value s) as [|v] eqn:Ev; cbn [fst]; [exact I|].
@@ -513,7 +575,7 @@ Proof.
       * apply rel_core_A; [|rewrite at_max_set_extra; exact Em].
         destruct A as [Hc Hle Hd Hn]. constructor; prj; [unfold tid in *; lia|exact Hle|lia|exact Hn].
   - (* Resume *)
-    destruct (phase_of s t) as [| |f] eqn:Ep; [exact I| |].
+    destruct (phase_of s t) as [| |f|] eqn:Ep; [exact I| | |].
     + assert (Hr : resv_phase s t) by (left; exact Ep).
       destruct (mustc s t).
       * apply cancel_release_inv; [now apply leave_S|now apply leave_A].
@@ -530,8 +592,9 @@ Proof.
           assert (f' = f) by congruence. subst. congruence. }
         eapply arith_same; [exact A|..]; cbn; try reflexivity.
         now rewrite (remove_one_notin t (infl s) Hni).
+    + destruct (mustc s t); cbn [fst]; [|exact I]. apply leave_neutral_inv; [exact I|right; exact Ep].
   - (* Cancel *)
-    destruct (phase_of s t) as [| |f] eqn:Ep; [exact I| |].
+    destruct (phase_of s t) as [| |f|] eqn:Ep; [exact I| | |].
     + cbn [fst]. constructor; [unfold set_mustc; now apply struct_ghost|].
       eapply arith_same; [exact A|..]; reflexivity.
     + destruct (futs s f) eqn:Ef; cbn [fst].
@@ -540,6 +603,16 @@ Proof.
         eapply arith_same; [exact A|..]; reflexivity.
       * constructor; [unfold set_mustc; now apply struct_ghost|].
         eapply arith_same; [exact A|..]; reflexivity.
+    + cbn [fst]. constructor; [unfold set_mustc; now apply struct_ghost|].
+      eapply arith_same; [exact A|..]; reflexivity.
+  - (* AcqBeginC *)
+    destruct (is_idle (phase_of s t)) eqn:Ei; cbn [negb fst]; [|exact I].
+    apply is_idle_true in Ei. apply set_phase_neutral_inv; [exact I|left; exact Ei|now right].
+  - (* CkPass *)
+    destruct (phase_of s t) as [| |f|] eqn:Ep; try exact I.
+    assert (IL : Inv (leave s t)) by (apply leave_neutral_inv; [exact I|right; exact Ep]).
+    destruct (mustc s t); cbn [fst]; [exact IL|].
+    apply acq_body_inv; [exact IL|]. cbn. apply upd_same.
 Qed.
 
 Theorem reachable_inv fa iv mx ops : max_ok iv mx -> Inv (final step (init fa iv mx) ops).
